@@ -1444,7 +1444,7 @@ class Interp:
                 self._dict_store(arr, self.eval(target.slice, env), v, target)
                 return
             if isinstance(arr, Opaque):
-                self.event("item-store", target, (ast.unparse(base), self.eval(target.slice, env), v))
+                self.event("item-store", target, (ast.unparse(base), self.eval(target.slice, env), v, arr))
                 return
             self.event("unsupported", target, "store into non-name base")
             return
@@ -1455,7 +1455,7 @@ class Interp:
             except AnalysisError:
                 arr = None
         if isinstance(arr, Opaque):
-            self.event("item-store", target, (base.id, self.eval(target.slice, env), v))
+            self.event("item-store", target, (base.id, self.eval(target.slice, env), v, arr))
             return
         if isinstance(arr, Tup) and arr.kind == "dict":
             self._dict_store(arr, self.eval(target.slice, env), v, target)
